@@ -96,6 +96,14 @@ impl SharedHistory {
             // Nothing has changed.
             false
         };
+        if res {
+            // The data set changes right now, so the creation time has to
+            // change with it. Otherwise a conditional request arriving
+            // before mark_update_done could match the old creation time
+            // while the new data set is already being served.
+            let now = Utc::now();
+            history.advance_created(now);
+        }
         // Update the snapshot. The refresh time and object information may
         // have changed.
         history.current = Some(snapshot.into());
@@ -127,21 +135,7 @@ impl SharedHistory {
                 locked.next_update_start = refresh;
             }
         }
-        locked.created = {
-            if let Some(created) = locked.created {
-                // Since we increase the time, the created time may
-                // actually have moved into the future.
-                if now.timestamp() <= created.timestamp() {
-                    Some(created + chrono::Duration::try_seconds(1).unwrap())
-                }
-                else {
-                    Some(now)
-                }
-            }
-            else {
-                Some(now)
-            }
-        };
+        locked.advance_created(now);
     }
 }
 
@@ -305,6 +299,29 @@ impl PayloadHistory {
                 expire: config.expire.as_secs() as u32,
             },
         }
+    }
+
+    /// Moves the creation time of the current data set to `now`.
+    ///
+    /// The new value will always be in a later second than the previous
+    /// one since the time used in conditional HTTP requests only has
+    /// second-resolution.
+    fn advance_created(&mut self, now: DateTime<Utc>) {
+        self.created = {
+            if let Some(created) = self.created {
+                // Since we increase the time, the created time may
+                // actually have moved into the future.
+                if now.timestamp() <= created.timestamp() {
+                    Some(created + chrono::Duration::try_seconds(1).unwrap())
+                }
+                else {
+                    Some(now)
+                }
+            }
+            else {
+                Some(now)
+            }
+        };
     }
 
     /// Pushes a new delta to the history
